@@ -563,6 +563,7 @@ package fpgo
 //@   ensures unchanged: unchanged(list)
 //@ func IsDistinct loop 0
 //@   invariant seen: forallv(x, has(s, x) == exists(j, 0, _i, list[j] == x))
+//@   invariant only-true-is-stored: forallv(x, s[x] == has(s, x))
 //@   invariant distinct: forall(i, 0, _i, forall(j, 0, i, list[j] != list[i]))
 //@   invariant fresh: fresh(s)
 
